@@ -190,6 +190,10 @@ func (l *Lexer) Next(p []byte) (TokenType, []byte, error) {
 				continue
 			}
 		case OpAttachment:
+			if recordLen > math.MaxInt64 {
+				// would turn into a negative limit and a backwards seek below
+				return TokenError, nil, fmt.Errorf("attachment record length %d: %w", recordLen, ErrLengthOutOfRange)
+			}
 			limitReader := &io.LimitedReader{
 				R: l.reader,
 				N: int64(recordLen),
